@@ -12,6 +12,9 @@ FUEL = 80
 # ----------------------------------------------------------------------------------------------
 # real code runner
 # ----------------------------------------------------------------------------------------------
+N_EPOCHS = 16      # rows of the main-sampler table (epochs the model / the oracle know about)
+
+
 class _DS:
     """data source: item i of dataset `tag` is (tag, i)"""
 
@@ -24,20 +27,43 @@ class _DS:
     def __getitem__(self, i):
         if not 0 <= i < self.n:
             raise IndexError(i)
-        return (self.tag, i)
+        return (self.tag, int(i))
 
     def worker_init_fn(self, rank, **kwargs):
         pass
+
+
+class _DSC(_DS):
+    """data source with class labels (what the package's ClassBalancedSampler / SemiSampler ask their dataset for)"""
+
+    def __init__(self, tag, classes):
+        super().__init__(tag, len(classes))
+        self.classes = [int(c) for c in classes]
+
+    def getall_class(self):
+        return list(self.classes)
+
+    def getitem_class(self, idx, ctx=None):
+        return self.classes[idx]
+
+    def getdim_class(self):
+        return max(self.classes) + 1
 
 
 class _OutOfTable(Exception):
     """the run needs more epochs than the oracle table holds: treated as 'does not end'"""
 
 
+def _np_int(x):
+    import numpy as np
+    return np.int64(x)
+
+
 class _Main:
-    def __init__(self, table, n, ds, log):
+    def __init__(self, table, n, ds, log, wrap=None):
         self.table, self.n, self.data_source, self.log = table, n, ds, log
         self.epoch = None
+        self.wrap = wrap
 
     def set_epoch(self, e):
         self.epoch = e
@@ -46,35 +72,39 @@ class _Main:
     def __len__(self):
         return self.n
 
-    def __iter__(self):
+    def _row(self):
         if self.epoch >= len(self.table):
             raise _OutOfTable()
-        yield from self.table[self.epoch]
+        row = self.table[self.epoch]
+        return [self.wrap(x) for x in row] if self.wrap else row
+
+    def __iter__(self):
+        yield from self._row()
 
 
 class _MainEager(_Main):
     """a main sampler that fixes its order when `iter()` is called (like torch's DistributedSampler, epoch 0 by default):
     the epoch has to be announced BEFORE the iterator is created"""
 
-    def __init__(self, table, n, ds, log):
-        super().__init__(table, n, ds, log)
+    def __init__(self, table, n, ds, log, wrap=None):
+        super().__init__(table, n, ds, log, wrap)
         self.epoch = 0
 
     def __iter__(self):
-        if self.epoch >= len(self.table):
-            raise _OutOfTable()
-        return iter(list(self.table[self.epoch]))
+        return iter(list(self._row()))
 
 
 class _Side:
-    def __init__(self, idxs, n, ds):
+    def __init__(self, idxs, n, ds, wrap=None):
         self.idxs, self.n, self.dataset = idxs, n, ds
+        self.wrap = wrap
 
     def __len__(self):
         return self.n
 
     def __iter__(self):
-        yield from self.idxs
+        for x in self.idxs:
+            yield self.wrap(x) if self.wrap else x
 
 
 class _Coll:
@@ -85,43 +115,231 @@ class _Coll:
         return (self.tag, list(data))
 
 
+# ---- main samplers shipped by the package / by torch (rank r of world_size w) -------------------------------------------
+_REC = {}
+
+
+def _recording(base):
+    """subclass of a real sampler class that reports the set_epoch calls it receives (arguments forwarded verbatim) and,
+    like `_Main`, stops runs that leave the table of epochs"""
+    cls = _REC.get(base)
+    if cls is None:
+        class Rec(base):
+            _kdv_log = None
+            _kdv_epoch = None
+
+            def set_epoch(self, epoch):
+                self._kdv_epoch = epoch
+                if self._kdv_log is not None:
+                    self._kdv_log.append([2, epoch])
+                up = getattr(super(), "set_epoch", None)
+                if up is not None:
+                    up(epoch)
+
+            def __iter__(self):
+                if self._kdv_epoch is not None and self._kdv_epoch >= N_EPOCHS:
+                    raise _OutOfTable()
+                return super().__iter__()
+
+        Rec.__name__ = Rec.__qualname__ = base.__name__
+        _REC[base] = cls = Rec
+    return cls
+
+
+def msamp_dataset(ms):
+    if "classes" in ms:
+        return _DSC(0, ms["classes"])
+    return _DS(0, ms["n"])
+
+
+def make_msamp(ms, ds, log):
+    """the real main sampler described by `ms` over the data source `ds`"""
+    import torch
+    import kappadata.samplers as ks
+    from torch.utils.data import DistributedSampler as TorchDistributedSampler
+    k = ms["kind"]
+    if k == "kd_dist":
+        s = _recording(ks.DistributedSampler)(ds, num_replicas=ms["w"], rank=ms["r"], shuffle=ms["shuffle"], seed=ms["seed"],
+                                              drop_last=ms["sdl"], num_repeats=ms["rep"])
+    elif k == "torch_dist":
+        s = _recording(TorchDistributedSampler)(ds, num_replicas=ms["w"], rank=ms["r"], shuffle=ms["shuffle"], seed=ms["seed"],
+                                                drop_last=ms["sdl"])
+    elif k == "kd_weighted":
+        s = _recording(ks.WeightedSampler)(ds, weights=torch.tensor(ms["weights"], dtype=torch.float32), size=ms["size"],
+                                           seed=ms["seed"], rank=ms["r"], world_size=ms["w"])
+    elif k == "kd_cb":
+        s = _recording(ks.ClassBalancedSampler)(ds, shuffle=ms["shuffle"], samples_per_class=ms["spc"], seed=ms["seed"],
+                                                rank=ms["r"], world_size=ms["w"])
+    elif k == "kd_semi":
+        s = _recording(ks.SemiSampler)(ds, num_labeled=ms["nl"], num_unlabeled=ms["nu"], rank=ms["r"], world_size=ms["w"],
+                                       seed=ms["seed"], length_mode=ms["mode"])
+    elif k == "kd_seq":
+        s = _recording(ks.SequentialSampler)(ds)
+    else:
+        raise ValueError(k)
+    s._kdv_log = log
+    return s
+
+
+def materialise_msamp(ms):
+    """(len(sampler), len(data source), [the sampler's own iteration of epoch e for e < N_EPOCHS]) from a reference instance"""
+    ds = msamp_dataset(ms)
+    ref = make_msamp(ms, ds, None)
+    n = len(ref)
+    table = []
+    for e in range(N_EPOCHS):
+        ref.set_epoch(e)
+        table.append([int(i) for i in ref])
+    return n, len(ds), table
+
+
+class _Built:
+    s = None          # the sampler under observation
+    itp = None        # iterator of a second sampler that is alive at the same time and shares the config objects
+    post = None       # builds (and maybe runs) a later user of the same config objects
+
+
+def _consume(it, limit=MAX_EVENTS):
+    try:
+        for k, _ in enumerate(it):
+            if k > limit:
+                break
+    except Exception:
+        pass
+
+
 def build_real(case, log):
     from kappadata.samplers.interleaved_sampler import InterleavedSampler, InterleavedSamplerConfig
-    main = (_MainEager if case.get("eager") else _Main)(case["main"], case["N"], _DS(0, case["mds"]), log)
+    wrap = _np_int if case.get("idx_type") == "np" else None
+    ms = case.get("msamp")
+    if ms:
+        mds_obj = msamp_dataset(ms)
+        main = make_msamp(ms, mds_obj, log)
+    else:
+        mds_obj = _DS(0, case["mds"])
+        main = (_MainEager if case.get("eager") else _Main)(case["main"], case["N"], mds_obj, log, wrap)
+        if case.get("efflen") is not None:
+            # the package's rank-aware samplers expose the GLOBAL epoch size as `effective_length` (len() is the per-rank share)
+            main.effective_length = case["efflen"]
+    used = case.get("used_main")
+    if used:
+        # the main sampler object has a history: another epoch was announced and partly consumed before it is handed over
+        try:
+            main.set_epoch(used[0])
+            it = iter(main)
+            for _ in range(used[1]):
+                next(it)
+        except Exception:
+            pass
+        del log[:]
+    alias = case.get("alias") or [None] * len(case["cfgs"])
+    dss = [mds_obj]
+    sides = [None]
     cfgs = []
     for i, (e, u, s, b, ln, dsl) in enumerate(case["cfgs"]):
+        a = alias[i]
+        if a is not None and a[1] == "s":
+            side = sides[a[0]]            # the very same sampler object as an earlier config
+            ds = dss[a[0]]
+        else:
+            ds = dss[a[0]] if a is not None else _DS(i + 1, dsl)     # maybe the same dataset object as an earlier user
+            side = _Side(case["side"][i], ln, ds, wrap)
+        dss.append(ds)
+        sides.append(side)
         cfgs.append(InterleavedSamplerConfig(
-            sampler=_Side(case["side"][i], ln, _DS(i + 1, dsl)),
-            every_n_epochs=e, every_n_updates=u, every_n_samples=s, batch_size=b, collator=_Coll(i + 1)))
+            sampler=side, every_n_epochs=e, every_n_updates=u, every_n_samples=s, batch_size=b, collator=_Coll(i + 1)))
     kw = {}
     kw[{"e": "epochs", "u": "updates", "s": "samples"}[case["bk"]]] = case["bv"]
     if case["sk"] != "n":
         kw[{"e": "start_epoch", "u": "start_update", "s": "start_sample"}[case["sk"]]] = case["sv"]
-    return InterleavedSampler(main_sampler=main, batch_size=case["B"], configs=cfgs, drop_last=case["dl"],
-                              main_collator=_Coll(0), drop_last_batch_size=case["dlbs"], **kw)
+    out = _Built()
+    pre = case.get("pre")
+    if pre:
+        def other():
+            """another InterleavedSampler (other geometry) that is given the SAME config objects"""
+            if pre.get("share_main"):
+                pmain = main
+            else:
+                pmain = _Main(pre["main"], pre["N"], _DS(0, pre["N"]), [])
+            sel = pre.get("sel", "same")
+            pc = cfgs if sel == "same" else (list(reversed(cfgs)) if sel == "rev" else cfgs[:1])
+            pkw = {{"e": "epochs", "u": "updates", "s": "samples"}[pre["bk"]]: pre["bv"]}
+            return InterleavedSampler(main_sampler=pmain, batch_size=pre["B"], configs=pc, drop_last=pre["dl"],
+                                      main_collator=_Coll(0), drop_last_batch_size=pre["dlbs"], **pkw)
+
+        mode = pre["mode"]
+        if mode in ("ctor", "iter", "lockstep"):
+            try:
+                p = other()
+                if mode == "iter":
+                    _consume(iter(p))
+                elif mode == "lockstep":
+                    out.itp = iter(p)
+            except Exception:
+                pass
+            del log[:]
+        else:
+            def post():
+                try:
+                    p = other()
+                    if pre.get("post_iter"):
+                        _consume(iter(p))
+                except Exception:
+                    pass
+            out.post = post
+    out.s = InterleavedSampler(main_sampler=main, batch_size=case["B"], configs=cfgs, drop_last=case["dl"],
+                               main_collator=_Coll(0), drop_last_batch_size=case["dlbs"], **kw)
+    return out
 
 
-def run_real(case):
-    """same answer layout as the Lean driver's il.run"""
-    log = []
-    try:
-        s = build_real(case, log)
-    except AssertionError:
-        return {"ctor": "assert"}
-    except NotImplementedError:
-        return {"ctor": "notimpl"}
-    out = {"ctor": "ok", "start": [s.start_epoch, s.start_update, s.start_sample]}
+def _pass(s, log, itp=None):
+    """one pass over the sampler into `log`; returns 'ok' | 'assert' | 'nonterm' | 'error:<type>'"""
     try:
         for full, idx in s:
             log.append([1 if full else 0, int(idx)])
             if len(log) > MAX_EVENTS:
-                out["iter"] = "nonterm"
-                return out
+                return "nonterm"
+            if itp is not None:
+                try:
+                    next(itp)
+                except Exception:
+                    itp = None
     except AssertionError:
-        out["iter"] = "assert"
-        return out
+        return "assert"
     except _OutOfTable:
-        out["iter"] = "nonterm"
+        return "nonterm"
+    except Exception as e:
+        return f"error:{type(e).__name__}"
+    return "ok"
+
+
+def _get(dsx, i):
+    """(dataset index, tag of the data source, sample) the concat dataset resolves a global index to"""
+    try:
+        d, it = dsx[i]
+        return [int(d), int(it[0]), int(it[1])]
+    except Exception as e:
+        return [-1, -1, type(e).__name__]
+
+
+def run_real(case):
+    """same answer layout as the Lean driver's il.run"""
+    import copy
+    import pickle
+    log = []
+    try:
+        built = build_real(case, log)
+    except AssertionError:
+        return {"ctor": "assert"}
+    except NotImplementedError:
+        return {"ctor": "notimpl"}
+    except Exception as e:
+        return {"ctor": f"error:{type(e).__name__}", "_detail": str(e)[:200]}
+    s = built.s
+    out = {"ctor": "ok", "start": [s.start_epoch, s.start_update, s.start_sample]}
+    st = _pass(s, log, built.itp)
+    if st != "ok":
+        out["iter"] = st
         return out
     out["iter"] = "ok"
     out["evs"] = list(log)
@@ -129,16 +347,26 @@ def run_real(case):
     # must give the same stream; then the batch sampler of that same object is consumed
     first = list(log)
     del log[:]
-    try:
-        for full, idx in s:
-            log.append([1 if full else 0, int(idx)])
-            if len(log) > MAX_EVENTS:
-                break
-    except (AssertionError, _OutOfTable):
+    if built.post is not None:
+        built.post()      # a later user of the same config objects appears between the two passes
+        del log[:]
+    if _pass(s, log) != "ok" and len(log) <= MAX_EVENTS:
         log.append("error")
     out["repeat_ok"] = (log == first)
     out["_evs_again"] = list(log)
     del log[:]
+    if case.get("copy_leg"):
+        # a deep copy of the used sampler has the same configuration, hence the same stream (the copy keeps reporting to `log`)
+        try:
+            s3 = copy.deepcopy(s, {id(log): log})
+        except Exception:
+            s3 = None
+        if s3 is not None:
+            del log[:]
+            if _pass(s3, log) != "ok" and len(log) <= MAX_EVENTS:
+                log.append("error")
+            out["_evs_copy"] = list(log)
+            del log[:]
     s2 = s
     batches = []
     rest = []
@@ -153,39 +381,51 @@ def run_real(case):
         rest = ["nonterm"]
     out["batches"] = batches
     out["rest"] = rest
+    dsx, colx = s2.dataset, s2.collator
+    if case.get("pk_leg"):
+        # what a worker process of the DataLoader receives: pickled copies of the dataset and the collator
+        try:
+            dsx, colx = pickle.loads(pickle.dumps((dsx, colx)))
+        except Exception:
+            dsx, colx = s2.dataset, s2.collator
     resolved = []
+    tags = []
     colls = []
     for b in batches:
-        items = [s2.dataset[i] for i in b]
-        resolved.append([[d, it[1]] for d, it in items])
+        got = [_get(dsx, i) for i in b]
+        resolved.append([[d, smp] for d, _, smp in got])
+        tags.append([t for _, t, _ in got])
         try:
-            tag, data = s2.collator(items)
+            tag, data = colx([dsx[i] for i in b])
             colls.append(tag)
         except AssertionError:
             colls.append(-1)
+        except Exception:
+            colls.append(-2)
     out["resolved"] = resolved
     out["colls"] = colls      # which dataset's collator collated each batch (-1: the collator's assertion failed)
     # negative indices into the concat dataset: -1 .. -(total+2)
-    total = len(s2.dataset)
+    total = len(dsx)
     negs = []
     for k in range(total + 2):
         try:
-            d, it = s2.dataset[-(k + 1)]
+            d, it = dsx[-(k + 1)]
             negs.append([d, it[1]])
         except ValueError:
             negs.append("ValueError")
+        except Exception as e:
+            negs.append(type(e).__name__)
     out["neg"] = negs
     # DataLoader level (a sample of the cases): the loader built by get_data_loader yields exactly these batches, each collated
-    # by the collator of the dataset it was drawn from
+    # by the collator of the dataset it was drawn from (judged by the oracle)
     if case.get("dl_leg"):
         try:
-            got = [(tag, [list(x) for x in data]) for tag, data in s2.get_data_loader(num_workers=0)]
-            exp = [(s2.dataset[b[0]][0], [list(s2.dataset[i][1]) for i in b]) for b in batches]
-            out["_dl_ok"] = (got == exp)
+            nw = 2 if case["dl_leg"] == 2 else 0
+            out["_dl_got"] = [[tag, [[int(x[0]), int(x[1])] for x in data]] for tag, data in s2.get_data_loader(num_workers=nw)]
         except Exception as e:
-            out["_dl_ok"] = f"{type(e).__name__}: {e}"
+            out["_dl_got"] = f"{type(e).__name__}: {e}"
     out["_colls"] = colls
-    out["_tags"] = [[s2.dataset[i][1][0] for i in b] for b in batches]
+    out["_tags"] = tags
     return out
 
 
@@ -297,10 +537,53 @@ def strictly_before_budget(case, e0):
     return e0 * spe < case["bv"]
 
 
+def legs_of(case):
+    """the histories / compositions a case carries (for messages, histogram and signature)"""
+    legs = []
+    if case.get("msamp"):
+        legs.append(f"main={case['msamp']['kind']}:rank{case['msamp']['r']}of{case['msamp']['w']}")
+    if case.get("efflen") is not None:
+        legs.append("main-has-effective_length")
+    if case.get("used_main"):
+        legs.append("used-main")
+    if any(a is not None for a in case.get("alias") or []):
+        legs.append("shared-" + "".join(sorted({("dataset" if a[1] == "d" else "sampler") for a in case["alias"] if a is not None})))
+    if case.get("pre"):
+        legs.append(f"configs-shared-with-{case['pre']['mode']}-sampler" + ("+main" if case["pre"].get("share_main") else ""))
+    if case.get("idx_type") == "np":
+        legs.append("np-int64-indices")
+    return legs
+
+
+def slots_of(case):
+    """per user (0 = main sampler, i = config i-1): first global index of its own range, and the tag of the data source object
+    it draws from (a dataset object shared with an earlier user carries that user's tag)"""
+    offs = [0, case["mds"]]
+    for c in case["cfgs"]:
+        offs.append(offs[-1] + c[5])
+    alias = case.get("alias") or [None] * len(case["cfgs"])
+    root = [0]
+    for i, a in enumerate(alias):
+        root.append(root[a[0]] if a is not None else i + 1)
+    return offs, root
+
+
+def slot_of(offs, i):
+    for d in range(len(offs) - 1):
+        if offs[d] <= i < offs[d + 1]:
+            return d
+    return None
+
+
 def oracle(case, real, which):
     """returns a Failure or None. `which` in C04, C05, C06"""
     if not in_domain(case):
         return None
+    tag = (f"N={case['N']} B={case['B']} dl={case['dl']} dlbs={case['dlbs']} {case['bk']}={case['bv']} "
+           f"start={case['sk']}{case.get('sv','')}" + "".join(f" [{l}]" for l in legs_of(case)))
+    if str(real.get("ctor")).startswith("error") and which in ("C04", "C05"):
+        return Failure("interleaved:constructor-crash", f"the constructor fails with {real.get('ctor')} ({real.get('_detail')}) for {tag}", case,
+                       "accepted, AssertionError or NotImplementedError", real.get("ctor"))
     if real.get("ctor") != "ok":
         return None  # rejection is an acceptable answer
     e0 = start_epoch_of(case)
@@ -311,7 +594,6 @@ def oracle(case, real, which):
         return None
     if zero and case["sk"] != "n":
         return None
-    tag = f"N={case['N']} B={case['B']} dl={case['dl']} dlbs={case['dlbs']} {case['bk']}={case['bv']} start={case['sk']}{case.get('sv','')}"
     if real.get("iter") != "ok":
         if which == "C04":
             return Failure("interleaved:does-not-end", f"iteration does not end normally ({real.get('iter')}) for {tag}", case,
@@ -320,6 +602,7 @@ def oracle(case, real, which):
     exp = expected_stream(case, e0)
     mds = case["mds"]
     again = real.get("_evs_again")
+    copied = real.get("_evs_copy")
     if which == "C04" and real.get("repeat_ok") is False and again is not None and "error" not in again:
         # the second pass over the SAME object: judged against the same expected stream, main-sampler part only
         got2 = [e for e in again if e[0] == 2 or e[1] < mds]
@@ -342,11 +625,14 @@ def oracle(case, real, which):
         gb = [b for b in real["batches"] if b and b[0] < mds]
         if gb != eb:
             return Failure("interleaved:batches", f"main batches differ for {tag}", case, eb, gb)
+        if copied is not None:
+            got3 = [e for e in copied if e == "error" or e[0] == 2 or e[1] < mds]
+            if got3 != exp_main:
+                return Failure("interleaved:copy", f"a deep copy of the used sampler object gives a different main stream for {tag}", case,
+                               exp_main, got3)
         return None
-    if which == "C05" and real.get("_dl_ok") not in (None, True):
-        return Failure("interleaved:dataloader", f"the DataLoader built by get_data_loader does not yield the batch sampler's batches collated by "
-                       f"their own dataset's collator for {tag}", case, True, real.get("_dl_ok"))
     if which == "C05":
+        offs, root = slots_of(case)
         if real["evs"] != exp:
             # only report when the side part differs (main part is C04's business)
             got_side = _side_view(real["evs"], mds)
@@ -360,24 +646,42 @@ def oracle(case, real, which):
             if got_side != exp_side:
                 return Failure("interleaved:side-passes-reiteration", f"second pass over the same sampler object: side passes differ from the "
                                f"due-schedule for {tag} cfgs={case['cfgs']}", case, exp_side, got_side)
-        for b, tags, coll in zip(real["batches"], real["_tags"], real["_colls"]):
-            if len(set(tags)) != 1:
-                return Failure("interleaved:mixed-batch", f"a batch mixes datasets for {tag}", case, None, [b, tags])
-            if coll != tags[0]:
-                return Failure("interleaved:collator", f"batch of dataset {tags[0]} collated by collator {coll} for {tag}", case, tags[0], coll)
-        # every index resolves to the dataset and sample it was drawn for
-        offs = [0, mds]
-        for c in case["cfgs"]:
-            offs.append(offs[-1] + c[5])
-        for b, res in zip(real["batches"], real["resolved"]):
-            for i, (d, smp) in zip(b, res):
-                if not (offs[d] <= i < offs[d + 1] and smp == i - offs[d]):
-                    return Failure("interleaved:resolve", f"index {i} resolved to dataset {d} sample {smp} for {tag}", case, None, [i, d, smp])
+        if copied is not None and copied != exp:
+            got_side = _side_view([e for e in copied if e != "error"], mds) + (["error"] if "error" in copied else [])
+            exp_side = _side_view(exp, mds)
+            if got_side != exp_side:
+                return Failure("interleaved:side-passes-copy", f"a deep copy of the used sampler object: side passes differ from the "
+                               f"due-schedule for {tag} cfgs={case['cfgs']}", case, exp_side, got_side)
+        # no batch mixes users; every index resolves to the dataset and sample it was drawn for and is collated by that user's collator
+        for b, res, tags, coll in zip(real["batches"], real["resolved"], real["_tags"], real["_colls"]):
+            owners = [slot_of(offs, i) for i in b]
+            if len(set(owners)) != 1:
+                return Failure("interleaved:mixed-batch", f"a batch mixes datasets for {tag}", case, None, [b, owners])
+            d0 = owners[0]
+            if d0 is None:
+                return Failure("interleaved:resolve", f"batch {b} lies outside every index range for {tag}", case, None, b)
+            for i, (d, smp), t in zip(b, res, tags):
+                if not (d == d0 and smp == i - offs[d0] and t == root[d0]):
+                    return Failure("interleaved:resolve", f"index {i} (range of user {d0}, data source {root[d0]}, sample {i - offs[d0]}) resolved to "
+                                   f"dataset {d}, data source {t}, sample {smp} for {tag}", case, [d0, root[d0], i - offs[d0]], [d, t, smp])
+            if coll != d0:
+                return Failure("interleaved:collator", f"batch of user {d0} collated by collator {coll} for {tag}", case, d0, coll)
+        got = real.get("_dl_got")
+        if got is not None:
+            want = []
+            for b in real["batches"]:
+                d0 = slot_of(offs, b[0])
+                want.append([d0, [[root[d0], i - offs[d0]] for i in b]] if d0 is not None else [None, b])
+            if got != want:
+                return Failure("interleaved:dataloader", f"the DataLoader built by get_data_loader (num_workers={2 if case.get('dl_leg') == 2 else 0}) "
+                               f"does not yield the batch sampler's batches collated by their own collator for {tag}", case, want, got)
         return None
     if which == "C06":
         if case["sk"] == "n":
             return None
         un = dict(case, sk="n", sv=0)
+        for k in ("dl_leg", "copy_leg", "pk_leg"):
+            un.pop(k, None)
         r0 = run_real(un)
         if r0.get("iter") != "ok":
             return None
@@ -393,6 +697,9 @@ def oracle(case, real, which):
         if again is not None and "error" not in again and again != suffix:
             return Failure("interleaved:resume-reiteration", f"second pass over the same resumed sampler object is not the suffix of the "
                            f"uninterrupted run for {tag} cfgs={case['cfgs']}", case, suffix, again)
+        if copied is not None and copied != suffix:
+            return Failure("interleaved:resume-copy", f"a deep copy of the used resumed sampler object does not give the suffix of the "
+                           f"uninterrupted run for {tag} cfgs={case['cfgs']}", case, suffix, copied)
         return None
 
 
@@ -416,8 +723,70 @@ def _side_view(evs, mds):
 CFG_KINDS = [ks for r in (1, 2, 3) for ks in itertools.combinations("eus", r)]
 
 
+def gen_msamp(rng, big):
+    """a main sampler shipped by the package (or torch's DistributedSampler), used as rank r of world_size w like in multi-GPU
+    training; returns (spec, N, mds, table) or None when the drawn sampler is outside the quantifier (empty / does not yield
+    len(sampler) indices) or cannot be built"""
+    for _ in range(4):
+        kind = rng.choice(["kd_dist", "kd_dist", "torch_dist", "kd_weighted", "kd_weighted", "kd_cb", "kd_semi", "kd_seq"])
+        w = rng.choice([1, 2, 2, 3])
+        if kind == "kd_seq":
+            w = 1
+        r = rng.randrange(w)
+        n = rng.randint(max(w, 2), 24 if big else 11)
+        ms = {"kind": kind, "w": w, "r": r, "seed": rng.randint(0, 5)}
+        if kind in ("kd_dist", "torch_dist"):
+            ms.update(n=n, shuffle=rng.random() < 0.7, sdl=rng.random() < 0.4)
+            if kind == "kd_dist":
+                ms["rep"] = 2 if (ms["shuffle"] and rng.random() < 0.25) else 1
+        elif kind == "kd_weighted":
+            ms.update(n=n, weights=[rng.randint(1, 8) / 4 for _ in range(n)], size=rng.choice([None, None, rng.randint(w, n)]))
+        elif kind == "kd_cb":
+            ncls = rng.randint(2, 3)
+            classes = list(range(ncls)) + [rng.randrange(ncls) for _ in range(max(n - ncls, 0))]
+            rng.shuffle(classes)
+            ms.update(classes=classes, shuffle=rng.random() < 0.7, spc=rng.choice([None, None, rng.randint(1, 4)]))
+        elif kind == "kd_semi":
+            classes = [-1, 0] + [rng.choice([-1, -1, 0, 1]) for _ in range(max(n - 2, 0))]
+            rng.shuffle(classes)
+            ms.update(classes=classes, nl=rng.randint(1, 2), nu=rng.randint(1, 2), mode=rng.choice(["labeled", "unlabeled", "all"]))
+        else:
+            ms.update(n=n)
+        try:
+            N, mds, table = materialise_msamp(ms)
+        except Exception:
+            continue
+        if N < 1 or any(len(row) != N for row in table) or any(not 0 <= i < mds for row in table for i in row):
+            continue
+        return ms, N, mds, table
+    return None
+
+
+def gen_pre(rng, case):
+    """another InterleavedSampler with its own geometry / budget that is handed the same config objects"""
+    N = rng.randint(1, 9)
+    B = rng.randint(1, N)
+    dl = rng.random() < 0.6
+    dlbs = rng.choice([k * B for k in range(1, N // B + 1)]) if (dl and rng.random() < 0.2) else None
+    bk = rng.choice("eus")
+    bv = {"e": rng.randint(0, 2), "u": rng.randint(0, 5), "s": rng.randint(0, 12)}[bk]
+    pre = {"N": N, "B": B, "dl": dl, "dlbs": dlbs, "bk": bk, "bv": bv, "mode": rng.choice(["ctor", "ctor", "iter", "lockstep", "post"]),
+           "sel": rng.choice(["same", "same", "same", "rev", "first"]), "main": [rng.sample(range(N), N) for _ in range(6)]}
+    if pre["mode"] == "post":
+        pre["post_iter"] = rng.random() < 0.5
+    if pre["mode"] != "lockstep" and rng.random() < 0.2 and B <= case["N"]:
+        # both samplers are built over the same main sampler object
+        pre["share_main"] = True
+        pre["dlbs"] = None
+    return pre
+
+
 def gen_case(rng, big=False, force_start=None):
-    N = rng.randint(1, 24 if big else 9)
+    real_main = gen_msamp(rng, big) if rng.random() < 0.2 else None
+    if real_main:
+        msamp, N, mds0, table = real_main
+    else:
+        N = rng.randint(1, 24 if big else 9)
     B = rng.randint(1, N)
     if rng.random() < 0.05:
         B = rng.choice([0, N + 1])
@@ -430,7 +799,7 @@ def gen_case(rng, big=False, force_start=None):
             dlbs = rng.choice([B + 1, N + B, 0])
         if dlbs is not None and rng.random() < 0.9:
             dl = True
-    mds = N + rng.choice([0, 0, 1, 3])
+    mds = mds0 if real_main else N + rng.choice([0, 0, 1, 3])
     case = {"op": "il.run", "N": N, "mds": mds, "B": B, "dl": dl, "dlbs": dlbs}
     spe, upe = (1, 1)
     if 1 <= B <= N and (dlbs is None or (dl and dlbs >= B and dlbs % B == 0 and dlbs <= N)):
@@ -444,8 +813,8 @@ def gen_case(rng, big=False, force_start=None):
         bv = rng.randint(0, 3 * spe + 2)
     case["bk"], case["bv"] = bk, bv
     ncfg = rng.choice([0, 1, 1, 2, 2, 3])
-    cfgs, side = [], []
-    for _ in range(ncfg):
+    cfgs, side, alias = [], [], []
+    for ci in range(ncfg):
         kinds = rng.choice(CFG_KINDS)
         ivs = [1, 2, 3, 5, 7] + ([B, spe, spe + 1] if B else [])
         e = rng.choice([1, 2, 3]) if "e" in kinds else None
@@ -454,11 +823,29 @@ def gen_case(rng, big=False, force_start=None):
         if rng.random() < 0.02:
             e, u, s = rng.choice([(None, None, None), (0, None, None), (None, 0, None)])
         b = rng.choice([None, None, 1, 2, 4])
-        ln = rng.choice([1, 2, 3, 5])
-        dsl = ln + rng.choice([0, 0, 2])
+        a = None
+        if rng.random() < 0.25:
+            # composition: this config draws from the same dataset object (or is even given the same sampler object) as an earlier
+            # user of this InterleavedSampler -- e.g. evaluating on the train set while training, one test set with two collators
+            j = rng.randrange(ci + 1)
+            a = [j, "s" if (j > 0 and rng.random() < 0.3) else "d"]
+        if a is not None and a[1] == "s":
+            ln, dsl = cfgs[a[0] - 1][4], cfgs[a[0] - 1][5]
+            idxs = list(side[a[0] - 1])
+        elif a is not None:
+            dsl = mds if a[0] == 0 else cfgs[a[0] - 1][5]
+            ln = rng.choice([k for k in (1, 2, 3, 5) if k <= dsl])
+            idxs = rng.sample(range(dsl), ln)
+        else:
+            ln = rng.choice([1, 2, 3, 5])
+            dsl = ln + rng.choice([0, 0, 2])
+            idxs = rng.sample(range(dsl), ln)
         cfgs.append([e, u, s, b, ln, dsl])
-        side.append(rng.sample(range(dsl), ln))
+        side.append(idxs)
+        alias.append(a)
     case["cfgs"], case["side"] = cfgs, side
+    if any(a is not None for a in alias):
+        case["alias"] = alias
     # start checkpoint
     r = rng.random() if force_start is None else force_start
     if r < 0.45 or bv == 0:
@@ -477,12 +864,32 @@ def gen_case(rng, big=False, force_start=None):
             case["sk"], case["sv"] = "u", e0 * upe + (rng.randint(1, max(upe - 1, 1)) if rng.random() < 0.15 else 0)
         else:
             case["sk"], case["sv"] = "s", e0 * spe + (rng.choice([1, B, B + 1]) if rng.random() < 0.15 else 0)
-    n_epochs = 16
     if rng.random() < 0.15:
         case["dl_leg"] = True
-    case["main"] = [rng.sample(range(mds), N) for _ in range(n_epochs)]
+    elif rng.random() < 0.012:
+        case["dl_leg"] = 2          # the same through two worker processes
     case["fuel"] = FUEL
-    case["eager"] = rng.random() < 0.5
+    if real_main:
+        case["msamp"] = msamp
+        case["main"] = table
+        case["eager"] = False
+    else:
+        case["main"] = [rng.sample(range(mds), N) for _ in range(N_EPOCHS)]
+        case["eager"] = rng.random() < 0.5
+        if rng.random() < 0.25:
+            w = rng.choice([2, 3])
+            case["efflen"] = N * w + rng.randrange(w)
+        if rng.random() < 0.1:
+            case["idx_type"] = "np"
+    # histories
+    if rng.random() < 0.15:
+        case["used_main"] = [rng.randint(0, 5), rng.randint(0, N)]
+    if rng.random() < 0.3:
+        case["pre"] = gen_pre(rng, case)
+    if rng.random() < 0.2:
+        case["copy_leg"] = True
+    if rng.random() < 0.3:
+        case["pk_leg"] = True
     return case
 
 
@@ -511,8 +918,9 @@ def signature(case, real):
     """what makes a case distinct/non-trivial: geometry class x config kinds x start kind x outcome"""
     kinds = tuple("".join(k for k, v in zip("eus", c[:3]) if v is not None) for c in case["cfgs"])
     N, B = case["N"], case["B"]
+    legs = tuple(l.split(":")[0] for l in legs_of(case))
     return (case["dl"], case["dlbs"] is not None, (N % B == 0) if B else None, case["bk"], min(case["bv"], 3), kinds,
-            case["sk"], real.get("ctor"), real.get("iter"), min(len(real.get("evs", [])), 40))
+            case["sk"], real.get("ctor"), real.get("iter"), min(len(real.get("evs", [])), 40), legs)
 
 
 def strip_private(d):
@@ -533,7 +941,10 @@ class InterleavedCheck(PropertyCheck):
     trusted_extra = [
         "modelled by hand: InterleavedSampler.__init__ (asserts, checkpoint inference), __iter__, _training_loop, _eval_loop, "
         "_InterleavedBatchSampler.__iter__, _InterleavedConcatDataset.__getitem__ (bisect), _InterleavedCollator dispatch",
-        "not modelled: DataLoader/worker processes, pickling of helper classes, samplers themselves (oracles)",
+        "not modelled: DataLoader/worker processes, pickling of helper classes, samplers themselves (oracles; for main samplers of the package "
+        "the oracle table is the iteration of a fresh reference instance of the same sampler)",
+        "histories (config / sampler / dataset objects shared between InterleavedSampler instances, copies) are invisible to the model: the "
+        "model answer is a function of the configuration only, the real objects carry the history",
     ]
 
     def view(self, case, ans):
@@ -561,7 +972,12 @@ class InterleavedCheck(PropertyCheck):
         res = CorrResult()
         cases, ncorp, nex = self.cases()
         res.rule = (f"{ncorp} corpus + {nex} cases of the exhaustive small-geometry sweep (N<=5, all B, drop modes, dlbs, budgets, config kind combos"
-                    f"{'; sampled' if self.tier == 'quick' else '; complete'}) + seeded random geometries N<=24 with 0-3 configs and start checkpoints; "
+                    f"{'; sampled' if self.tier == 'quick' else '; complete'}) + seeded random geometries N<=24 with 0-3 configs and start checkpoints, "
+                    "a share of them with histories / compositions (main sampler = a sampler of the package or torch as rank r of w, main sampler "
+                    "exposing effective_length != len, used main sampler object, dataset / sampler objects shared between users of one "
+                    "InterleavedSampler, config objects (and main sampler) shared with a second InterleavedSampler of another geometry built before / "
+                    "iterated before / alive at the same time / built later, deep copy of the used sampler, pickled dataset + collator, numpy int64 "
+                    "indices, DataLoader with 0 and 2 workers); "
                     "distinct = (drop mode, dlbs?, N%B==0, budget kind/value class, config kind tuple, start kind, outcome, stream length)")
         res.exhaustive = self.tier == "thorough"
         answers = self.driver.run(cases)
@@ -574,6 +990,11 @@ class InterleavedCheck(PropertyCheck):
             res.bump(f"start={case['sk']}")
             res.bump(f"budget={case['bk']}")
             res.bump(f"ncfg={len(case['cfgs'])}")
+            for leg in legs_of(case):
+                res.bump("leg=" + leg.split(":")[0])
+            for k in ("copy_leg", "pk_leg", "dl_leg"):
+                if case.get(k):
+                    res.bump(f"leg={k}{case[k] if case[k] is not True else ''}")
             if self.view(case, strip_private(real)) != self.view(case, model):
                 if len(res.disagreements) < 50:
                     res.disagreements.append(Disagreement(case, self.view(case, model), self.view(case, strip_private(real))))
